@@ -173,7 +173,8 @@ class IterativeQPESolver:
 
         # Determine where to place QPE ancilla qubit index
         self.n_state, self.n_ancilla = self.unitary.qubit_indices()
-        self.qft_qubit = max(list(self.n_state)+list(self.n_ancilla)) + 1
+        # The ancilla sits above the qubits of the unitary and of the reference circuit
+        self.qft_qubit = max(max(list(self.n_state)+list(self.n_ancilla)) + 1, self.reference_circuit.width)
 
         self.cfunc = IterativeQPEControl(self.n_qpe_qubits, self.qft_qubit, self.unitary)
         self.circuit = Circuit(self.reference_circuit._gates+[Gate("CMEASURE", self.qft_qubit)],
